@@ -395,6 +395,16 @@ func (DisputeMonitor) Post(e *Explorer, before, w *World, pre interface{}, ev *E
 		}
 	}
 	// votes: new Voter entries and group counters
+	voting := map[string]bool{} // signers of vote messages in this transaction
+	if ev.Msgs != nil {
+		for _, m := range ev.Msgs(before) {
+			if mv, ok := m.(*disputetypes.MsgVote); ok {
+				if a, err := sdk.AccAddressFromBech32(mv.Voter); err == nil {
+					voting[fmt.Sprintf("%x", a.Bytes())] = true
+				}
+			}
+		}
+	}
 	for k, nvr := range now.voters {
 		ovr, had := old.voters[k]
 		if had {
@@ -406,6 +416,15 @@ func (DisputeMonitor) Post(e *Explorer, before, w *World, pre interface{}, ev *E
 		var id uint64
 		var addrHex string
 		fmt.Sscanf(k, "%d/%s", &id, &addrHex)
+		if !voting[addrHex] {
+			// a voter record written by something else than a vote (ClaimReward marks the claim of a voter of an earlier
+			// round under the final round's id): it must carry no weight
+			e.RC.Count("voter_records_not_from_votes", 1)
+			if nvr.VoterPower.IsPositive() || nvr.ReporterPower.IsPositive() || nvr.TokenholderPower.IsPositive() {
+				fail("weight-without-vote", fmt.Sprintf("a voter record with weight %s appeared for %s on dispute %d without a vote message", nvr.VoterPower, addrHex, id))
+			}
+			continue
+		}
 		e.RC.Count("votes_recorded", 1)
 		od, ok := old.disputes[id]
 		if !ok {
@@ -603,7 +622,7 @@ func checkC12(rc *RunCtx) {
 		rc.Sample(map[string]interface{}{"scenario": st.name, "prefix": st.prep, "depth": depth, "alphabet": labels(alpha(cur))})
 	}
 	if rc.Replay == nil || strings.HasPrefix(rc.Replay.Scenario, "vote-dfs") == false {
-		runSkeletons(rc, mons, kOf(rc))
+		runSkeletons(rc, mons, kOf(rc), skDispute...)
 	}
 }
 
